@@ -80,6 +80,9 @@ var c03NameSets = []struct{ repos, tags []string }{
 type c03Closer interface{ Close() }
 
 func c03BuildStack(cfg c03Config, backend ociregistry.Interface) (ociregistry.Interface, func()) {
+	// readers handed to the server refuse to be read once closed (ocimem's keep working, which would
+	// hide a reader closed too early somewhere in the stack)
+	backend = strictMember{backend}
 	sopts := c03ServerOpts(cfg.Opts)
 	copts := &ociclient.Options{ListPageSize: cfg.ListPage}
 	mk := func(b ociregistry.Interface) (ociregistry.Interface, func()) {
